@@ -745,6 +745,7 @@ SHIM_TABLE = {
     "sla.sqrtm": "closed form for 1x1 / 2x2 symmetric positive definite input",
     "sla.block_diag": "block diagonal stacking",
     "overwrite_a / overwrite_b": "permission to destroy the operand: the stand-ins fill it with a poison symbol after computing the result (worst case of LAPACK's in-place work, which also ignores numpy's read-only flag)",
+    "np.linalg.svd": "singular values (compute_uv=False) of a symbolic matrix with at most two rows or columns, from the small Gram matrix in closed form",
     "np.linalg.pinv / inv": "exact (sympy) inverse; pseudo-inverse of a full-rank symbolic matrix by the normal equations",
     "utils.hash_array": "hash of the (expanded) symbolic entries and the shape instead of the array's bytes: equal contents <=> equal hash, as for float arrays of one dtype",
 }
@@ -812,6 +813,23 @@ class _NPLinalgProxy:
         if not (isinstance(a, np.ndarray) and a.dtype == object):
             return np.linalg.inv(a)
         return dense_inv(to_obj(a))
+
+    @staticmethod
+    def svd(a, full_matrices=True, compute_uv=True, hermitian=False):
+        """singular VALUES only, for matrices with at most two rows or columns: square roots of the eigenvalues of the small Gram matrix (closed form)"""
+        if not (isinstance(a, np.ndarray) and a.dtype == object):
+            return np.linalg.svd(a, full_matrices=full_matrices, compute_uv=compute_uv, hermitian=hermitian)
+        if compute_uv:
+            raise Undecided("numpy.linalg.svd with singular vectors on symbolic operands is not modelled")
+        a = to_obj(a)
+        g = a @ a.T if a.shape[0] <= a.shape[1] else a.T @ a
+        if g.shape[0] == 1:
+            return np.array([SE(sp.sqrt(g[0, 0].e))], dtype=object)
+        if g.shape[0] == 2:
+            tr, det = g[0, 0].e + g[1, 1].e, g[0, 0].e * g[1, 1].e - g[0, 1].e * g[1, 0].e
+            disc = sp.sqrt(sp.together(tr ** 2 / 4 - det))
+            return np.array([SE(sp.sqrt(tr / 2 + disc)), SE(sp.sqrt(tr / 2 - disc))], dtype=object)
+        raise Undecided("numpy.linalg.svd of a symbolic matrix with more than two rows and columns is not modelled")
 
 
 def shim_hash_array(a):
